@@ -136,6 +136,12 @@ func mfRenderDesc(c mfCase) (name, text string, files map[string]string) {
 			machinery("class %s: payload does not contain %q", cls, cut)
 		}
 		d.text = d.text[:i]
+	case cls == "null_source":
+		d.rep("variable_sources:\n", "variable_sources:\n  -\n", 1)
+	case cls == "null_postproc":
+		d.rep("    postprocessors:\n", "    postprocessors:\n      -\n", 1)
+	case cls == "null_preproc":
+		d.rep("    preprocessors:\n", "    preprocessors:\n      -\n", 1)
 	case cls == "neg_weight":
 		d.rep(pick("weight           = 50", "weight: 50"), pick("weight           = -50", "weight: -50"), 1)
 	case cls == "var_randint_eq":
